@@ -104,6 +104,9 @@ func k8(args []string) {
 	layouts := []layout{
 		{"alone", map[string]string{"p/b.go": obs}},
 		{"with-earlier-sibling", map[string]string{"p/a.go": sibA, "p/b.go": obs}},
+		// an earlier file holding generator FUNCTION LITERALS (their source comments are collected per file)
+		{"after-literal-sibling", map[string]string{"p/a_lit.go": litFile("p"), "p/b.go": obs}},
+		{"after-literal-package", map[string]string{"a0/lit.go": litFile("a0"), "p/b.go": obs}},
 		{"with-both-siblings", map[string]string{"p/a.go": sibA, "p/b.go": obs, "p/c.go": sibC}},
 		{"with-other-package", map[string]string{"p/b.go": obs, "q/q.go": other}},
 		{"with-everything", map[string]string{"p/a.go": sibA, "p/b.go": obs, "p/c.go": sibC, "q/q.go": other, "a0/z.go": strings.Replace(other, "package q", "package a0", 1)}},
@@ -266,6 +269,44 @@ func k8(args []string) {
 			res.C16 = append(res.C16, k8Case{"second-run-byte-identical", same, tail(out2, 200)})
 		}
 	}
+	// a second tree: the top directory has NO co test file, a sub-package has one
+	if _, err := os.Stat(cogen); err == nil {
+		root := filepath.Join(mod, "g2")
+		pkg := filepath.Join(root, "pkg")
+		subTest := "//go:build co\n\npackage sub\n\nimport (\n\t\"testing\"\n\t\"github.com/goghcrow/go-co\"\n)\n\nfunc twice(n int) co.Iter[int] {\n\tfor i := 0; i < n; i++ {\n\t\tco.Yield(2 * i)\n\t}\n\treturn nil\n}\n\nfunc TestTwice(t *testing.T) {\n\ts := 0\n\tfor v := range twice(4) {\n\t\ts += v\n\t}\n\tif s != 12 {\n\t\tt.Fatal(s)\n\t}\n}\n"
+		files := map[string]string{
+			"pkg/types.go":            "package pkg\n\ntype Pair struct{ A, B int }\n",
+			"pkg/gen_co.go":           strings.Replace(coFile("pkg", "co", []string{"RangeSliceKV"}, "G"), "var _ = vm.E\n", "var _ = vm.E\n\n//go:generate true\n", 1),
+			"pkg/sub/walk_co.go":      coFile("sub", "co", []string{"RangeInt"}, "S"),
+			"pkg/sub/walk_co_test.go": subTest,
+		}
+		for rel, c := range files {
+			mustWrite(filepath.Join(root, rel), c)
+		}
+		before := snapshot(root)
+		c := exec.Command(cogen)
+		c.Dir = pkg
+		c.Env = append(os.Environ(), "GOFILE=gen_co.go")
+		if o, err := c.CombinedOutput(); err != nil {
+			res.C16 = append(res.C16, k8Case{"subpackage-test-file-only: cogen-run", false, tail(string(o), 600)})
+		} else {
+			after := snapshot(root)
+			var created []string
+			for p := range after {
+				if _, ok := before[p]; !ok {
+					created = append(created, p)
+				}
+			}
+			sort.Strings(created)
+			want := "pkg/gen.go,pkg/sub/walk.go,pkg/sub/walk_test.go"
+			res.C16 = append(res.C16, k8Case{"subpackage-test-file-only: writes-exactly-the-derived-files", strings.Join(created, ",") == want,
+				fmt.Sprintf("created=%v want=[%s]", created, want)})
+			t := exec.Command("go", "test", "-count=1", "./...")
+			t.Dir = pkg
+			o, err := t.CombinedOutput()
+			res.C16 = append(res.C16, k8Case{"subpackage-test-file-only: tests-pass-without-tag", err == nil && strings.Contains(string(o), "ok"), tail(string(o), 400)})
+		}
+	}
 	// ---------------- C13: compiler directives of bystander declarations ----------------
 	// a //go:embed variable and a //go:noinline function next to generators: the generated package must
 	// still embed the file.  Variant "lit" also holds a generator FUNCTION LITERAL (finding D15 on the
@@ -300,9 +341,43 @@ func k8(args []string) {
 			fmt.Sprintf(" (embed directive kept: %v, noinline kept: %v)", strings.Contains(string(gen), "//go:embed data.txt"), strings.Contains(string(gen), "//go:noinline"))})
 	}
 
+	// the same bystander in a file visited AFTER a file that holds a generator literal: per-file state of the
+	// rewriter must not leak into it
+	{
+		name := "directives-kept-after-lit-file"
+		src := filepath.Join(mod, "c13", "afterlit", "src", "e")
+		dst := filepath.Join(mod, "c13", "afterlit", "out", "e")
+		mustWrite(filepath.Join(src, "a_lit.go"), "package e\n\nimport . \"github.com/goghcrow/go-co\"\n\n// Lit is a generator literal\nvar Lit = func() Iter[int] {\n\tYield(2)\n}\n")
+		mustWrite(filepath.Join(src, "b_decl.go"), "package e\n\nimport (\n\t_ \"embed\"\n\n\t. \"github.com/goghcrow/go-co\"\n)\n\nfunc G1() Iter[int] {\n\tYield(1)\n}\n\n"+
+			"// Data is filled in by the compiler\n//\n//go:embed data.txt\nvar Data string\n\n//go:noinline\nfunc Plain() int { return len(Data) }\n")
+		mustWrite(filepath.Join(src, "data.txt"), "hello")
+		if out, err := compile(src, dst); err != nil {
+			res.C13 = append(res.C13, k8Case{name, false, "compile failed: " + tail(out, 400)})
+		} else {
+			mustWrite(filepath.Join(dst, "data.txt"), "hello")
+			mainDir := filepath.Join(mod, "c13", "afterlit", "cmd")
+			mustWrite(filepath.Join(mainDir, "main.go"), "package main\n\nimport (\n\t\"fmt\"\n\te \"scratch/c13/afterlit/out/e\"\n)\n\nfunc main() { fmt.Println(\"len\", e.Plain()) }\n")
+			c := exec.Command("go", "run", "./c13/afterlit/cmd")
+			c.Dir = mod
+			o, err := c.CombinedOutput()
+			got := strings.TrimSpace(string(o))
+			gen, _ := os.ReadFile(filepath.Join(dst, "b_decl.go"))
+			ok := err == nil && got == "len 5" && strings.Contains(string(gen), "//go:embed data.txt") && strings.Contains(string(gen), "//go:noinline")
+			res.C13 = append(res.C13, k8Case{name, ok, "source: len 5 with //go:embed and //go:noinline; generated: " + tail(got, 200) +
+				fmt.Sprintf(" (embed directive kept: %v, noinline kept: %v)", strings.Contains(string(gen), "//go:embed data.txt"), strings.Contains(string(gen), "//go:noinline"))})
+		}
+	}
+
 	bts, _ := json.MarshalIndent(res, "", " ")
 	os.WriteFile(filepath.Join(*dir, "k8.json"), bts, 0o644)
 	os.RemoveAll(mod)
+}
+
+// litFile: a source file with two generator function literals and a declared generator
+func litFile(pkg string) string {
+	return "package " + pkg + "\n\nimport \"github.com/goghcrow/go-co\"\n\n" +
+		"// Squares is a generator literal\nvar Squares = func(n int) co.Iter[int] {\n\tfor i := 1; i <= n; i++ {\n\t\tco.Yield(i * i)\n\t}\n\treturn nil\n}\n\n" +
+		"func Both(n int) co.Iter[int] {\n\tinner := func() co.Iter[int] {\n\t\tco.Yield(-n)\n\t\treturn nil\n\t}\n\tco.YieldFrom(inner())\n\tco.YieldFrom(Squares(n))\n\treturn nil\n}\n"
 }
 
 func diffHint(a, b string) string {
